@@ -32,71 +32,7 @@ Qed.
 Lemma is_nil_true {A} (l : list A) : is_nil l = true <-> l = [].
 Proof. destruct l; simpl; split; congruence. Qed.
 
-(** * One pass of yaegi's loop *)
-
-Lemma y_pass_length st nodes e r st' :
-  y_pass st nodes = (e, r, st') -> length e + length r = length nodes.
-Proof.
-  revert st e r st'. induction nodes as [|n rest IH]; intros st e r st' H; simpl in H.
-  - inversion H. reflexivity.
-  - destruct (ready st n).
-    + destruct (y_pass (nid n :: st) rest) as [[e0 r0] st0] eqn:E. inversion H; subst.
-      simpl. f_equal. eapply IH. exact E.
-    + destruct (y_pass st rest) as [[e0 r0] st0] eqn:E. inversion H; subst.
-      simpl. rewrite <- plus_n_Sm. f_equal. eapply IH. exact E.
-Qed.
-
-Lemma y_pass_state st nodes e r st' :
-  y_pass st nodes = (e, r, st') -> st' = rev (map nid e) ++ st.
-Proof.
-  revert st e r st'. induction nodes as [|n rest IH]; intros st e r st' H; simpl in H.
-  - inversion H. reflexivity.
-  - destruct (ready st n).
-    + destruct (y_pass (nid n :: st) rest) as [[e0 r0] st0] eqn:E. inversion H; subst.
-      simpl. rewrite <- app_assoc. simpl. eapply IH. exact E.
-    + destruct (y_pass st rest) as [[e0 r0] st0] eqn:E. inversion H; subst.
-      eapply IH. exact E.
-Qed.
-
-Lemma y_pass_perm st nodes e r st' :
-  y_pass st nodes = (e, r, st') -> Permutation (e ++ r) nodes.
-Proof.
-  revert st e r st'. induction nodes as [|n rest IH]; intros st e r st' H; simpl in H.
-  - inversion H. constructor.
-  - destruct (ready st n).
-    + destruct (y_pass (nid n :: st) rest) as [[e0 r0] st0] eqn:E. inversion H; subst.
-      simpl. constructor. eapply IH. exact E.
-    + destruct (y_pass st rest) as [[e0 r0] st0] eqn:E. inversion H; subst.
-      apply Permutation_sym. apply Permutation_cons_app. apply Permutation_sym. eapply IH. exact E.
-Qed.
-
-(** a pass that emits nothing: nothing was ready *)
-Lemma y_pass_stuck st nodes e r st' :
-  y_pass st nodes = (e, r, st') -> length r = length nodes ->
-  e = [] /\ r = nodes /\ st' = st /\ forall n, In n nodes -> ready st n = false.
-Proof.
-  revert st e r st'. induction nodes as [|n rest IH]; intros st e r st' H Hl; simpl in H.
-  - inversion H. repeat split. intros n [].
-  - destruct (ready st n) eqn:R.
-    + destruct (y_pass (nid n :: st) rest) as [[e0 r0] st0] eqn:E. inversion H; subst.
-      apply y_pass_length in E. simpl in Hl. lia.
-    + destruct (y_pass st rest) as [[e0 r0] st0] eqn:E. inversion H; subst.
-      simpl in Hl. injection Hl as Hl.
-      destruct (IH _ _ _ _ E Hl) as [He [Hr [Hs Hn]]]. subst.
-      repeat split. intros m [Hm|Hm]; [subst; exact R|apply Hn; exact Hm].
-Qed.
-
 (** * G: picking *)
-
-Lemma g_pick_skip st skipped n rest :
-  existsb (ready st) skipped = false -> ready st n = true ->
-  g_pick st (skipped ++ n :: rest) = Some (n, skipped ++ rest).
-Proof.
-  induction skipped as [|s sk IH]; intros Hs Hn; simpl.
-  - rewrite Hn. reflexivity.
-  - simpl in Hs. apply orb_false_iff in Hs. destruct Hs as [Hs1 Hs2].
-    rewrite Hs1. rewrite (IH Hs2 Hn). reflexivity.
-Qed.
 
 Lemma g_pick_none st l : (forall n, In n l -> ready st n = false) -> g_pick st l = None.
 Proof.
@@ -105,73 +41,74 @@ Proof.
   intros m Hm. apply H. right. exact Hm.
 Qed.
 
+Lemma g_pick_none_inv st : forall l, g_pick st l = None -> forall n, In n l -> ready st n = false.
+Proof.
+  induction l as [|m l IH]; intros H n Hn; simpl in *; [destruct Hn|].
+  destruct (ready st m) eqn:R; [discriminate|].
+  destruct (g_pick st l) as [[x l']|] eqn:P; [discriminate|].
+  destruct Hn as [Hn|Hn]; [subst; exact R|exact (IH eq_refl n Hn)].
+Qed.
+
 Lemma g_loop_nil fuel st : g_loop fuel st [] = ([], []).
 Proof. destruct fuel; reflexivity. Qed.
 
-(** * Under "no ready node is stepped over", a pass of yaegi is a run of steps of G *)
-
-Lemma pass_g nodes : forall skipped st e r st',
-  y_pass st nodes = (e, r, st') -> pass_ok skipped st nodes = true ->
-  forall k, g_loop (length e + k) st (skipped ++ nodes) =
-            (let '(e2, r2) := g_loop k st' (skipped ++ r) in (e ++ e2, r2)).
+Lemma g_pick_length st : forall nodes n rest, g_pick st nodes = Some (n, rest) -> length nodes = S (length rest).
 Proof.
-  induction nodes as [|n rest IH]; intros skipped st e r st' H Hok k; simpl in H.
-  - inversion H; subst. simpl. destruct (g_loop k st' (skipped ++ [])); reflexivity.
-  - simpl in Hok. destruct (ready st n) eqn:R.
-    + destruct (y_pass (nid n :: st) rest) as [[e0 r0] st0] eqn:E. inversion H; subst.
-      apply andb_true_iff in Hok. destruct Hok as [Hs Hok]. apply negb_true_iff in Hs.
-      simpl. rewrite (g_pick_skip _ _ _ _ Hs R).
-      rewrite (IH _ _ _ _ _ E Hok k).
-      destruct (g_loop k st' (skipped ++ r)); reflexivity.
-    + destruct (y_pass st rest) as [[e0 r0] st0] eqn:E. inversion H; subst.
-      specialize (IH _ _ _ _ _ E Hok k).
-      rewrite <- app_assoc in IH. simpl in IH. rewrite IH.
-      rewrite <- app_assoc. reflexivity.
+  induction nodes as [|m l IH]; intros n rest H; simpl in H; [discriminate|].
+  destruct (ready st m).
+  - inversion H; subst. reflexivity.
+  - destruct (g_pick st l) as [[x l']|] eqn:P; [|discriminate]. inversion H; subst.
+    simpl. f_equal. eapply IH. reflexivity.
 Qed.
 
-(** The generic agreement theorem: on any dependency graph, if yaegi's passes never step over a
-    ready node, its schedule (emitted nodes and left-over nodes) is that of the specification. *)
-Lemma loop_agree : forall fuel st nodes fg,
-  loop_ok fuel st nodes = true -> length nodes < fuel -> length nodes <= fg ->
-  y_loop fuel st nodes = g_loop fg st nodes.
+Lemma g_pick_ready st : forall pending n rest,
+  g_pick st pending = Some (n, rest) -> ready st n = true.
 Proof.
-  induction fuel as [|k IH]; intros st nodes fg Hok Hf Hg; [lia|].
-  simpl in Hok. simpl.
-  destruct (y_pass st nodes) as [[e r] st'] eqn:E.
-  apply andb_true_iff in Hok. destruct Hok as [Hp Hok].
-  pose proof (y_pass_length _ _ _ _ _ E) as Hlen.
-  pose proof (pass_g nodes [] st e r st' E Hp (fg - length e)) as Hg2. simpl in Hg2.
-  replace (length e + (fg - length e)) with fg in Hg2 by lia.
-  destruct (is_nil r || (length r =? length nodes)) eqn:C.
-  - apply orb_true_iff in C. destruct C as [C|C].
-    + apply is_nil_true in C. subst r. rewrite Hg2. rewrite g_loop_nil. rewrite app_nil_r. reflexivity.
-    + apply Nat.eqb_eq in C. destruct (y_pass_stuck _ _ _ _ _ E C) as [He [Hr [Hs Hn]]]. subst.
-      destruct fg; simpl; [reflexivity|]. rewrite (g_pick_none _ _ Hn). reflexivity.
-  - apply orb_false_iff in C. destruct C as [C1 C2]. apply Nat.eqb_neq in C2.
-    rewrite Hg2. rewrite (IH st' r (fg - length e) Hok); [|lia|lia].
-    destruct (g_loop (fg - length e) st' r). reflexivity.
+  induction pending as [|m l IH]; intros n rest H; simpl in H; [discriminate|].
+  destruct (ready st m) eqn:R.
+  - inversion H; subst. exact R.
+  - destruct (g_pick st l) as [[x l']|] eqn:P; [|discriminate]. inversion H; subst.
+    eapply IH. reflexivity.
 Qed.
 
-Theorem sched_agree nodes :
-  loop_ok (S (length nodes)) [] nodes = true -> y_sched nodes = g_sched nodes.
+Lemma g_pick_perm st : forall pending n rest,
+  g_pick st pending = Some (n, rest) -> Permutation (n :: rest) pending.
 Proof.
-  intros H. unfold y_sched, g_sched. apply loop_agree; [exact H|lia|lia].
+  induction pending as [|m l IH]; intros n rest H; simpl in H; [discriminate|].
+  destruct (ready st m).
+  - inversion H; subst. apply Permutation_refl.
+  - destruct (g_pick st l) as [[x l']|] eqn:P; [|discriminate]. inversion H; subst.
+    eapply Permutation_trans; [apply perm_swap|]. constructor. apply IH. reflexivity.
 Qed.
+
+(** * yaegi's loop (scan for the first ready node, emit it, restart) schedules exactly like the
+      specification, on every dependency graph: emitted nodes and left-over nodes *)
+
+Lemma y_pass_pick st nodes :
+  y_pass st nodes = match g_pick st nodes with Some (n, rest) => (Some n, rest) | None => (None, nodes) end.
+Proof.
+  induction nodes as [|n rest IH]; simpl; [reflexivity|].
+  destruct (ready st n); [reflexivity|]. rewrite IH.
+  destruct (g_pick st rest) as [[m rest']|]; reflexivity.
+Qed.
+
+Lemma y_loop_agree : forall fuel st nodes fg,
+  length nodes < fuel -> length nodes <= fg -> y_loop fuel st nodes = g_loop fg st nodes.
+Proof.
+  induction fuel as [|k IH]; intros st nodes fg Hf Hg; [lia|].
+  simpl. rewrite y_pass_pick. destruct (g_pick st nodes) as [[n rest]|] eqn:P.
+  - pose proof (g_pick_length _ _ _ _ P) as Hl.
+    destruct fg as [|fg']; [lia|]. simpl. rewrite P.
+    destruct rest as [|x rest'] eqn:R.
+    + simpl. rewrite g_loop_nil. reflexivity.
+    + simpl is_nil. cbv iota. rewrite (IH (nid n :: st) (x :: rest') fg'); [reflexivity| |]; simpl in *; lia.
+  - destruct fg; simpl; [reflexivity|]. rewrite P. reflexivity.
+Qed.
+
+Theorem sched_agree nodes : y_sched nodes = g_sched nodes.
+Proof. unfold y_sched, g_sched. apply y_loop_agree; lia. Qed.
 
 (** * Lists that are already in dependency order: both schedules are the identity *)
-
-Lemma y_pass_all_ready nodes : forall st,
-  all_ready_in_order st nodes = true -> y_pass st nodes = (nodes, [], rev (map nid nodes) ++ st).
-Proof.
-  induction nodes as [|n rest IH]; intros st H; simpl in *; [reflexivity|].
-  apply andb_true_iff in H. destruct H as [R H]. rewrite R. rewrite (IH _ H).
-  rewrite <- app_assoc. reflexivity.
-Qed.
-
-Lemma y_sched_all_ready nodes : all_ready_in_order [] nodes = true -> y_sched nodes = (nodes, []).
-Proof.
-  intros H. unfold y_sched. simpl. rewrite (y_pass_all_ready _ _ H). reflexivity.
-Qed.
 
 Lemma g_loop_all_ready nodes : forall fuel st,
   all_ready_in_order st nodes = true -> length nodes <= fuel -> g_loop fuel st nodes = (nodes, []).
@@ -200,6 +137,10 @@ Proof.
   - apply ready_spec. intros d Hd. exact (H n (or_introl eq_refl) d Hd).
   - apply IH. intros m Hm d Hd. right. exact (H m (or_intror Hm) d Hd).
 Qed.
+
+
+Lemma y_sched_all_ready nodes : all_ready_in_order [] nodes = true -> y_sched nodes = (nodes, []).
+Proof. intros H. rewrite sched_agree. apply g_sched_all_ready. exact H. Qed.
 
 (** * The dependency graphs of a package: names, marks *)
 
@@ -430,17 +371,17 @@ Proof.
   apply H. exact Hp.
 Qed.
 
-Theorem plain_agree p : plain p = true -> no_skipped_ready p = true -> y_order p = g_order p.
+Theorem plain_agree p : plain p = true -> y_order p = g_order p.
 Proof.
-  intros Hp Hn. unfold y_order, g_order. rewrite (plain_nodes p Hp).
-  rewrite (sched_agree (y_nodes p) Hn). reflexivity.
+  intros Hp. unfold y_order, g_order. rewrite (plain_nodes p Hp).
+  rewrite (sched_agree (y_nodes p)). reflexivity.
 Qed.
 
 Theorem pkg_side_agree p : pkg_side p = true -> y_order p = g_order p.
 Proof.
   unfold pkg_side. intros H. apply orb_true_iff in H. destruct H as [H|H].
   - apply sorted_agree. exact H.
-  - apply andb_true_iff in H. destruct H as [H1 H2]. apply plain_agree; assumption.
+  - apply plain_agree. exact H.
 Qed.
 
 (** * What yaegi's schedule guarantees unconditionally *)
@@ -459,30 +400,6 @@ Proof.
   - rewrite IH. rewrite <- app_assoc. simpl. tauto.
 Qed.
 
-Lemma y_pass_respects nodes : forall st e r st', y_pass st nodes = (e, r, st') -> respects st e.
-Proof.
-  induction nodes as [|n rest IH]; intros st e r st' H; simpl in H.
-  - inversion H. exact I.
-  - destruct (ready st n) eqn:R.
-    + destruct (y_pass (nid n :: st) rest) as [[e0 r0] st0] eqn:E. inversion H; subst.
-      simpl. split; [apply ready_spec; exact R|]. eapply IH. exact E.
-    + destruct (y_pass st rest) as [[e0 r0] st0] eqn:E. inversion H; subst.
-      eapply IH. exact E.
-Qed.
-
-Lemma y_loop_respects : forall fuel st nodes e r, y_loop fuel st nodes = (e, r) -> respects st e.
-Proof.
-  induction fuel as [|k IH]; intros st nodes e r H; simpl in H.
-  - inversion H. exact I.
-  - destruct (y_pass st nodes) as [[e0 r0] st'] eqn:E.
-    pose proof (y_pass_respects _ _ _ _ _ E) as H0.
-    destruct (is_nil r0 || (length r0 =? length nodes)).
-    + inversion H; subst. exact H0.
-    + destruct (y_loop k st' r0) as [e' r'] eqn:L. inversion H; subst.
-      apply respects_app. split; [exact H0|].
-      rewrite <- (y_pass_state _ _ _ _ _ E). eapply IH. exact L.
-Qed.
-
 Lemma respects_split : forall e st, respects st e ->
   forall e1 n e2, e = e1 ++ n :: e2 -> forall d, In d (ndeps n) -> In d st \/ In d (map nid e1).
 Proof.
@@ -491,25 +408,6 @@ Proof.
   specialize (H d Hd). apply in_app_or in H. destruct H as [H|H].
   - right. apply in_rev. exact H.
   - left. exact H.
-Qed.
-
-(** every node emitted has all its (direct) dependencies emitted before it *)
-Theorem y_respects_direct_deps nodes e r :
-  y_sched nodes = (e, r) ->
-  forall e1 n e2, e = e1 ++ n :: e2 -> forall d, In d (ndeps n) -> In d (map nid e1).
-Proof.
-  intros H e1 n e2 He d Hd. unfold y_sched in H. apply y_loop_respects in H.
-  destruct (respects_split e [] H e1 n e2 He d Hd) as [[]|Hx]. exact Hx.
-Qed.
-
-Lemma g_pick_ready st : forall pending n rest,
-  g_pick st pending = Some (n, rest) -> ready st n = true.
-Proof.
-  induction pending as [|m l IH]; intros n rest H; simpl in H; [discriminate|].
-  destruct (ready st m) eqn:R.
-  - inversion H; subst. exact R.
-  - destruct (g_pick st l) as [[x l']|] eqn:P; [|discriminate]. inversion H; subst.
-    eapply IH. reflexivity.
 Qed.
 
 Lemma g_loop_respects : forall fuel st nodes e r, g_loop fuel st nodes = (e, r) -> respects st e.
@@ -530,22 +428,26 @@ Proof.
   destruct (respects_split e [] H e1 n e2 He d Hd) as [[]|Hx]. exact Hx.
 Qed.
 
+(** every node emitted has all its (direct) dependencies emitted before it *)
+Theorem y_respects_direct_deps nodes e r :
+  y_sched nodes = (e, r) ->
+  forall e1 n e2, e = e1 ++ n :: e2 -> forall d, In d (ndeps n) -> In d (map nid e1).
+Proof. rewrite sched_agree. apply g_respects_deps. Qed.
+
 (** every node is emitted exactly once or left over *)
-Lemma y_loop_perm : forall fuel st nodes e r, y_loop fuel st nodes = (e, r) -> Permutation (e ++ r) nodes.
+Lemma g_loop_perm : forall fuel st nodes e r, g_loop fuel st nodes = (e, r) -> Permutation (e ++ r) nodes.
 Proof.
   induction fuel as [|k IH]; intros st nodes e r H; simpl in H.
   - inversion H. apply Permutation_refl.
-  - destruct (y_pass st nodes) as [[e0 r0] st'] eqn:E.
-    pose proof (y_pass_perm _ _ _ _ _ E) as H0.
-    destruct (is_nil r0 || (length r0 =? length nodes)).
-    + inversion H; subst. exact H0.
-    + destruct (y_loop k st' r0) as [e' r'] eqn:L. inversion H; subst.
-      rewrite <- app_assoc. eapply Permutation_trans; [|exact H0].
-      apply Permutation_app_head. eapply IH. exact L.
+  - destruct (g_pick st nodes) as [[n rest]|] eqn:P.
+    + destruct (g_loop k (nid n :: st) rest) as [e' r'] eqn:L. inversion H; subst.
+      simpl. eapply Permutation_trans; [|exact (g_pick_perm _ _ _ _ P)].
+      constructor. eapply IH. exact L.
+    + inversion H. apply Permutation_refl.
 Qed.
 
 Theorem y_emits_once nodes e r : y_sched nodes = (e, r) -> Permutation (e ++ r) nodes.
-Proof. apply y_loop_perm. Qed.
+Proof. rewrite sched_agree. apply g_loop_perm. Qed.
 
 (** the loop ends with all nodes emitted iff no set of nodes blocks itself *)
 Definition stuck_set (nodes S : list node) : Prop :=
@@ -560,22 +462,18 @@ Proof.
   - intros _. exists a. split; [left; reflexivity|exact F].
 Qed.
 
-Lemma y_loop_final : forall fuel st nodes e r,
-  y_loop fuel st nodes = (e, r) -> length nodes < fuel ->
+Lemma g_loop_final : forall fuel st nodes e r,
+  g_loop fuel st nodes = (e, r) -> length nodes <= fuel ->
   forall n, In n r -> ready (rev (map nid e) ++ st) n = false.
 Proof.
-  induction fuel as [|k IH]; intros st nodes e r H Hf; [lia|]. simpl in H.
-  destruct (y_pass st nodes) as [[e0 r0] st'] eqn:E.
-  pose proof (y_pass_length _ _ _ _ _ E) as Hlen.
-  destruct (is_nil r0 || (length r0 =? length nodes)) eqn:C.
-  - inversion H; subst. apply orb_true_iff in C. destruct C as [C|C].
-    + apply is_nil_true in C. subst. intros n [].
-    + apply Nat.eqb_eq in C. destruct (y_pass_stuck _ _ _ _ _ E C) as [He [Hr [Hs Hn]]]. subst.
-      simpl. exact Hn.
-  - apply orb_false_iff in C. destruct C as [_ C]. apply Nat.eqb_neq in C.
-    destruct (y_loop k st' r0) as [e' r'] eqn:L. inversion H; subst.
-    intros n Hn. rewrite map_app, rev_app_distr, <- app_assoc.
-    rewrite <- (y_pass_state _ _ _ _ _ E). eapply IH; [exact L|lia|exact Hn].
+  induction fuel as [|k IH]; intros st nodes e r H Hf; simpl in H.
+  - inversion H; subst. destruct r; [intros n []|simpl in Hf; lia].
+  - destruct (g_pick st nodes) as [[m rest]|] eqn:P.
+    + destruct (g_loop k (nid m :: st) rest) as [e' r'] eqn:L. inversion H; subst.
+      pose proof (g_pick_length _ _ _ _ P) as Hl.
+      intros n Hn. simpl. rewrite <- app_assoc. simpl.
+      eapply IH; [exact L|lia|exact Hn].
+    + inversion H; subst. simpl. exact (g_pick_none_inv _ _ P).
 Qed.
 
 Section Avoid.
@@ -584,43 +482,27 @@ Hypothesis HS : forall n, In n S -> exists d, In d (ndeps n) /\ forall m, In m n
 
 Let Inv (st : list id) : Prop := forall d, In d st -> exists m, In m nodes /\ nid m = d /\ ~ In m S.
 
-Lemma y_pass_avoid cur : forall st e r st',
-  y_pass st cur = (e, r, st') -> incl cur nodes -> Inv st ->
-  (forall m, In m e -> ~ In m S) /\ Inv st'.
+Lemma g_loop_avoid : forall fuel st cur e r,
+  g_loop fuel st cur = (e, r) -> incl cur nodes -> Inv st -> forall m, In m e -> ~ In m S.
 Proof.
-  induction cur as [|n rest IH]; intros st e r st' H Hi Hinv; simpl in H.
-  - inversion H; subst. split; [intros m []|exact Hinv].
-  - assert (Hrest : incl rest nodes) by (intros x Hx; apply Hi; right; exact Hx).
-    destruct (ready st n) eqn:R.
-    + destruct (y_pass (nid n :: st) rest) as [[e0 r0] st0] eqn:E. inversion H; subst.
+  induction fuel as [|k IH]; intros st cur e r H Hi Hinv; simpl in H.
+  - inversion H. intros m [].
+  - destruct (g_pick st cur) as [[n rest]|] eqn:P.
+    + destruct (g_loop k (nid n :: st) rest) as [e' r'] eqn:L. inversion H; subst.
+      pose proof (g_pick_ready _ _ _ _ P) as R.
+      pose proof (g_pick_perm _ _ _ _ P) as Hp.
+      assert (Hn : In n nodes) by (apply Hi; eapply Permutation_in; [exact Hp|left; reflexivity]).
+      assert (Hrest : incl rest nodes).
+      { intros x Hx. apply Hi. eapply Permutation_in; [exact Hp|right; exact Hx]. }
       assert (HnS : ~ In n S).
       { intros Hc. destruct (HS n Hc) as [d [Hd Hall]].
         pose proof (proj1 (ready_spec st n) R d Hd) as Hst.
         destruct (Hinv d Hst) as [m [Hm [Hid Hns]]]. apply Hns. apply Hall; assumption. }
       assert (Hinv' : Inv (nid n :: st)).
       { intros d [Hd|Hd]; [|exact (Hinv d Hd)].
-        exists n. split; [apply Hi; left; reflexivity|]. split; [exact Hd|exact HnS]. }
-      destruct (IH _ _ _ _ E Hrest Hinv') as [Ha Hb].
-      split; [|exact Hb]. intros m [Hm|Hm]; [subst; exact HnS|exact (Ha m Hm)].
-    + destruct (y_pass st rest) as [[e0 r0] st0] eqn:E. inversion H; subst.
-      exact (IH _ _ _ _ E Hrest Hinv).
-Qed.
-
-Lemma y_loop_avoid : forall fuel st cur e r,
-  y_loop fuel st cur = (e, r) -> incl cur nodes -> Inv st -> forall m, In m e -> ~ In m S.
-Proof.
-  induction fuel as [|k IH]; intros st cur e r H Hi Hinv; simpl in H.
-  - inversion H. intros m [].
-  - destruct (y_pass st cur) as [[e0 r0] st'] eqn:E.
-    destruct (y_pass_avoid _ _ _ _ _ E Hi Hinv) as [Ha Hb].
-    destruct (is_nil r0 || (length r0 =? length cur)).
-    + inversion H; subst. exact Ha.
-    + destruct (y_loop k st' r0) as [e' r'] eqn:L. inversion H; subst.
-      assert (Hr : incl r0 nodes).
-      { intros x Hx. apply Hi. eapply Permutation_in; [exact (y_pass_perm _ _ _ _ _ E)|].
-        apply in_or_app. right. exact Hx. }
-      intros m Hm. apply in_app_or in Hm. destruct Hm as [Hm|Hm]; [exact (Ha m Hm)|].
-      exact (IH _ _ _ _ L Hr Hb m Hm).
+        exists n. split; [exact Hn|]. split; [exact Hd|exact HnS]. }
+      intros m [Hm|Hm]; [subst; exact HnS|exact (IH _ _ _ _ L Hrest Hinv' m Hm)].
+    + inversion H. intros m [].
 Qed.
 
 End Avoid.
@@ -628,13 +510,13 @@ End Avoid.
 Theorem y_total_iff_no_stuck_set nodes e r :
   y_sched nodes = (e, r) -> (r <> [] <-> exists S, stuck_set nodes S).
 Proof.
-  intros H. unfold y_sched in H.
-  pose proof (y_loop_perm _ _ _ _ _ H) as Hp.
+  rewrite sched_agree. intros H. unfold g_sched in H.
+  pose proof (g_loop_perm _ _ _ _ _ H) as Hp.
   split.
   - intros Hr. exists r. split; [exact Hr|]. split.
     + intros x Hx. eapply Permutation_in; [exact Hp|]. apply in_or_app. right. exact Hx.
     + intros n Hn.
-      pose proof (y_loop_final _ _ _ _ _ H (Nat.lt_succ_diag_r _) n Hn) as Hf.
+      pose proof (g_loop_final _ _ _ _ _ H (Nat.le_refl _) n Hn) as Hf.
       rewrite app_nil_r in Hf. unfold ready in Hf.
       destruct (forallb_false _ _ Hf) as [d [Hd Hm]]. apply memb_false in Hm.
       exists d. split; [exact Hd|]. intros m Hmn Hid.
@@ -645,46 +527,11 @@ Proof.
     destruct S as [|n S']; [apply Hne; reflexivity|].
     assert (Hn : In n nodes) by (apply Hi; left; reflexivity).
     apply Permutation_sym in Hp. pose proof (Permutation_in _ Hp Hn) as Hin.
-    refine (y_loop_avoid nodes (n :: S') HS _ _ _ _ _ H _ _ n Hin _).
+    refine (g_loop_avoid nodes (n :: S') HS _ _ _ _ _ H _ _ n Hin _).
     + apply incl_refl.
     + intros d [].
     + left. reflexivity.
 Qed.
-
-(** * The proposed repair (restart the scan after each emitted variable) schedules like the specification *)
-
-Lemma r_pass_pick st nodes :
-  r_pass st nodes = match g_pick st nodes with Some (n, rest) => (Some n, rest) | None => (None, nodes) end.
-Proof.
-  induction nodes as [|n rest IH]; simpl; [reflexivity|].
-  destruct (ready st n); [reflexivity|]. rewrite IH.
-  destruct (g_pick st rest) as [[m rest']|]; reflexivity.
-Qed.
-
-Lemma g_pick_length st : forall nodes n rest, g_pick st nodes = Some (n, rest) -> length nodes = S (length rest).
-Proof.
-  induction nodes as [|m l IH]; intros n rest H; simpl in H; [discriminate|].
-  destruct (ready st m).
-  - inversion H; subst. reflexivity.
-  - destruct (g_pick st l) as [[x l']|] eqn:P; [|discriminate]. inversion H; subst.
-    simpl. f_equal. eapply IH. reflexivity.
-Qed.
-
-Lemma r_loop_agree : forall fuel st nodes fg,
-  length nodes < fuel -> length nodes <= fg -> r_loop fuel st nodes = g_loop fg st nodes.
-Proof.
-  induction fuel as [|k IH]; intros st nodes fg Hf Hg; [lia|].
-  simpl. rewrite r_pass_pick. destruct (g_pick st nodes) as [[n rest]|] eqn:P.
-  - pose proof (g_pick_length _ _ _ _ P) as Hl.
-    destruct fg as [|fg']; [lia|]. simpl. rewrite P.
-    destruct rest as [|x rest'] eqn:R.
-    + simpl. rewrite g_loop_nil. reflexivity.
-    + simpl is_nil. cbv iota. rewrite (IH (nid n :: st) (x :: rest') fg'); [reflexivity| |]; simpl in *; lia.
-  - destruct fg; simpl; [reflexivity|]. rewrite P. reflexivity.
-Qed.
-
-Theorem repair_agree nodes : r_sched nodes = g_sched nodes.
-Proof. unfold r_sched, g_sched. apply r_loop_agree; lia. Qed.
 
 (** * Packages: loading order *)
 
@@ -873,9 +720,12 @@ Definition single (p : pkg) : program := mkprog [mkpk 9 [] p [] true] 9.
 (** var a = lg(c); var b = lg(a); var c = lg(); var d = lg()              (a b c d = 1 2 3 4) *)
 Definition w_direct : pkg := mkpkg [v 1 [RV 3]; v 2 [RV 1]; v 3 []; v 4 []] [].
 
-Lemma refuted_direct :
-  y_order w_direct = Some [3; 4; 1; 2]%N /\ g_order w_direct = Some [3; 1; 2; 4]%N
-  /\ plain w_direct = true /\ no_skipped_ready w_direct = false.
+(** Regression: with the repaired loop this former counterexample is initialised in Go's order
+    c a b d; the loop as it was before the fix gave c d a b. *)
+Lemma direct_regression :
+  y_order w_direct = Some [3; 1; 2; 4]%N /\ g_order w_direct = Some [3; 1; 2; 4]%N
+  /\ plain w_direct = true /\ decl_sorted w_direct = false
+  /\ logs_of (old_sched (y_nodes w_direct)) = Some [3; 4; 1; 2]%N.
 Proof. vm_compute. repeat split. Qed.
 
 (** var a = lg(f()); var b = lg(); func f() int { return b }               (a b = 1 2, f = 10) *)
@@ -883,7 +733,7 @@ Definition w_func : pkg := mkpkg [v 1 [RF 10]; v 2 []] [mkfun 10 [RV 2]].
 
 Lemma refuted_through_func :
   y_order w_func = Some [1; 2]%N /\ g_order w_func = Some [2; 1]%N
-  /\ no_skipped_ready w_func = true /\ plain w_func = false.
+  /\ plain w_func = false /\ decl_sorted w_func = false.
 Proof. vm_compute. repeat split. Qed.
 
 (** var a = lg(x); var x, y = lg2(c); var c = lg()                         (a x y c = 1 2 3 4) *)
@@ -925,7 +775,7 @@ Lemma refuted_pkg_order :
 Proof. vm_compute. split; reflexivity. Qed.
 
 Lemma statement_refuted : ~ (forall g, y_trace g = g_trace g).
-Proof. intros H. specialize (H (single w_direct)). vm_compute in H. discriminate. Qed.
+Proof. intros H. specialize (H (single w_func)). vm_compute in H. discriminate. Qed.
 
 (** corner cases of the specification model, validated against compiled Go by the harness:
     the variables of [var a, b = f()] are scheduled one by one, and a variable without initialiser
@@ -939,11 +789,11 @@ Proof. vm_compute. repeat split. Qed.
 
 (** non-vacuity of the side conditions *)
 
-(** var a = lg(c); var b = lg(); var c = lg() : not sorted, plain, nothing stepped over *)
+(** var a = lg(c); var b = lg(); var c = lg() : not sorted, plain *)
 Definition w_plain : pkg := mkpkg [v 1 [RV 3]; v 2 []; v 3 []] [].
 
 Lemma plain_inhabited :
-  plain w_plain = true /\ no_skipped_ready w_plain = true /\ decl_sorted w_plain = false
+  plain w_plain = true /\ decl_sorted w_plain = false
   /\ y_order w_plain = Some [2; 3; 1]%N.
 Proof. vm_compute. repeat split. Qed.
 
@@ -974,3 +824,4 @@ Lemma import_inhabited :
   topo_listed [] (packages w_program) = true /\ find_pk (packages w_program) (entry w_program) <> None
   /\ y_pkg_order w_program = [1; 2; 9]%N.
 Proof. vm_compute. repeat split. discriminate. Qed.
+
